@@ -1,5 +1,6 @@
 import MjProof.Model.XmlDefaults
 import MjProof.Model.XmlInertial
+import MjProof.Model.XmlArity
 import MjProof.Gen.McjfDefaults
 import Drivers.Common
 /-
@@ -23,6 +24,8 @@ Line protocol of the C32 model driver (table-level writer/reader of Model/XmlDef
   c <same arguments as i>
      -> "ok <k_1> <k_2> ..."  per body the value of `unsafeClass` (0 = covered by inertial_roundtrip, 1..4 = the recorded
         classes on which the tree loses the mass); used by the oracle only, masses may be approximate (only `> 1e-14` matters)
+  s <t0> <t1> <d0> <d1> [# ...]     (x<bits> tokens) the variable-arity springlength writer of Model/XmlArity.lean: tendon pair
+        (t0, t1), default-class pair (d0, d1)  -> "ok -" (attribute not written) | "ok x<bits>[,x<bits>]" (the values printed)
   Everything from a "#" token on is ignored (the implementation side reads the document there).
 -/
 open MjProof MjProof.Driver MjProof.XmlDefaults
@@ -148,11 +151,20 @@ def inertialStep (cls : Bool) (ifg dv si glo ghi : String) (rest : List String) 
     "ok C -" ++ String.join (parts.map (" " ++ ·))
   | _, _, _, _, _, _ => "bad-op"
 
+def springStep (a b c d : String) : String :=
+  match parseX a, parseX b, parseX c, parseX d with
+  | some t0, some t1, some d0, some d1 =>
+    match MjProof.XmlArity.writeSpring doubleScalar (t0, t1) (d0, d1) with
+    | none => "ok -"
+    | some xs => "ok " ++ ",".intercalate (xs.map showFloat)
+  | _, _, _, _ => "bad-op"
+
 def step (line : String) : String :=
   match (words line).takeWhile (· != "#") with
   | ["tables"] =>
     let ts := Gen.McjfDefaults.tables
     s!"tables {ts.length} " ++ " ".intercalate (ts.map (·.1))
+  | ["s", a, b, c, d] => springStep a b c d
   | "i" :: ifg :: dv :: si :: glo :: ghi :: rest => inertialStep false ifg dv si glo ghi rest
   | "c" :: ifg :: dv :: si :: glo :: ghi :: rest => inertialStep true ifg dv si glo ghi rest
   | "w" :: table :: "D" :: rest =>
